@@ -44,9 +44,12 @@ CHECK = {
            'Failure history: k in {0,1,2,31,32,33,64,100} caught refused formattings of each kind (%$ onto a File with no stream, %$ onto a stack String, too few arguments, '
            '%$ of a user type whose Show throws (alone / inside a Tuple), %s of an Int, and all five mixed), each (kind, k) in its own forked child; the small grid '
            '(%$ of Int, Float, String, Array, Tuple; %d; %s; literal; %%; mixed) on both sinks and two starts must then write and return exactly what it did before the failures. '
+           'Long formats: well-formed formats of total length 2^12, 2^16, 2^18, 2^20, 2^21 (thorough also 2^23+4096) with %07d at the very start, %% in the middle, %s at the very end and '
+           'literal text between, to a String and a File, on the main thread and from a pthread with a 256 KiB stack, each case in a forked child; length, returned position, checksum and '
+           'first differing byte against snprintf, and the format and expected text must be intact afterwards. '
            'distinct_nontrivial = (specification, value) pairs whose C output differs from the output of the bare conversion '
            '(flags, width or precision change the text) + non-empty %$ scalar texts + container shapes with >= 2 elements + '
-           'too-few-argument cases in which an argument had already been consumed when FormatError was raised + ladder (form, N) pairs with N >= 64 + argument sequences in which an object recurs and its second occurrence is followed by something other than what followed the first + recycled sinks that received the address of a released sink of the other type + re-entrant formats + history cases with at least one refused formatting; each counted once (only by the gcc-built memstream instances)'),
+           'too-few-argument cases in which an argument had already been consumed when FormatError was raised + ladder (form, N) pairs with N >= 64 + argument sequences in which an object recurs and its second occurrence is followed by something other than what followed the first + recycled sinks that received the address of a released sink of the other type + re-entrant formats + history cases with at least one refused formatting + long-format cases at least as long as the small thread stack; each counted once (only by the gcc-built memstream instances)'),
   'bounds': {
     'quick': ('flags: all defined subsets; width {none,5}; precision {none,.3}; all length modifiers; Int values {0,-1,42,128,-129,32768,INT_MAX,INT_MIN} '
               '(+ {2^32, INT64_MAX, INT64_MIN} for l ll j z t); 11 Float values incl. +-0, +inf, denormal, 1e300; 6 Strings incl. empty and 40 chars; '
@@ -85,7 +88,9 @@ CHECK = {
          T('reentrant', 'base', 'mode=reentrant'),
          T('reentrant-asan', 'asan', 'mode=reentrant', 'count_nt=0'),
          T('history', 'base', 'mode=history'),
-         T('history-asan', 'asan', 'mode=history', 'count_nt=0')]
+         T('history-asan', 'asan', 'mode=history', 'count_nt=0'),
+         T('longfmt', 'base', 'mode=longfmt', 'sizes=5'),
+         T('longfmt-asan', 'asan', 'mode=longfmt', 'sizes=5', 'count_nt=0')]
       + grid_instances('small', 'asan', ['di', 'uoxX', 'fFeE', 'gGaA', 'csp$'], '-asan', ('count_nt=0',))
       + grid_instances('small', 'base', ['diuoxXcsp$', FLTS], '-tmpfile', ('file=tmpfile', 'count_nt=0'))
     ),
@@ -107,7 +112,9 @@ CHECK = {
          T('reentrant', 'base', 'mode=reentrant'),
          T('reentrant-asan', 'asan', 'mode=reentrant', 'count_nt=0'),
          T('history', 'base', 'mode=history'),
-         T('history-asan', 'asan', 'mode=history', 'count_nt=0')]
+         T('history-asan', 'asan', 'mode=history', 'count_nt=0'),
+         T('longfmt', 'base', 'mode=longfmt', 'sizes=6'),
+         T('longfmt-asan', 'asan', 'mode=longfmt', 'sizes=6', 'count_nt=0')]
       + grid_instances('full', 'asan', list(INTS) + list(FLTS) + ['csp$'], '-asan', ('count_nt=0',))
       + grid_instances('full', 'base', ['d', 'i', 'uo', 'xX', 'csp$', 'fF', 'eE', 'gG', 'aA'], '-tmpfile', ('file=tmpfile', 'count_nt=0'))
     ),
